@@ -530,6 +530,16 @@ fn leaf_candidates(kind: Leaf, orig: &Value, c: &Consts, rng: &mut Rng) -> Vec<(
                            ("2^26-1", "67108863"), ("2^26", "67108864"), ("2^30", "1073741824")] {
                 add(&format!("point=excess index {}", l), with_tok(pos, t));
             }
+            // a zero excess counter at each position in turn, and at all of them (amcl's lazy
+            // reduction shifts by the counter: the refusal of 0 is what keeps FP::neg in range)
+            for i in 0..ntok / 2 {
+                add(&format!("point=zero excess at {}", i), with_tok(2 * i, "0"));
+            }
+            {
+                let mut x = toks.clone();
+                for i in 0..ntok / 2 { if 2 * i < x.len() { x[2 * i] = "0".to_string(); } }
+                add("point=zero excess at all", json!(x.join(" ")));
+            }
             for (l, t) in [("0", "0".to_string()), ("non-hex", "XYZ".to_string()), ("64 F", "F".repeat(64)), ("65 hex digits", "1".repeat(65)),
                            ("72 hex digits", "F".repeat(72)), ("100 hex digits", "F".repeat(100)), ("1000 hex digits", "A".repeat(1000)),
                            ("lower-case", "abcdef".to_string()), ("minus", "-1".to_string()), ("modulus p", "2523648240000001BA344D80000000086121000000000013A700000000000013".to_string())] {
@@ -1625,17 +1635,18 @@ fn systematic(w: &World) -> Vec<Plan> {
                     let mut rng = Rng::new(7);
                     let wanted: &[&str] = match kind {
                         Leaf::Scalar => &["scalar=empty string", "scalar=non-hex text", "scalar=over-long 72 hex digits", "scalar=over-long 100 hex digits", "scalar=0", "scalar=r", "scalar=non-ascii"],
-                        Leaf::Point(_) => &["point=excess index i32::MAX+1", "point=excess index u32::MAX", "point=excess index i32::MAX", "point=excess index 2^30", "point=identity",
+                        Leaf::Point(_) => &["point=zero excess at *", "point=excess index i32::MAX+1", "point=excess index u32::MAX", "point=excess index i32::MAX", "point=excess index 2^30", "point=identity",
                                              "point=coordinate 100 hex digits", "point=coordinate 1000 hex digits", "point=coordinate non-hex", "point=empty string"],
                         Leaf::BigNum => &["bn=0", "bn=-1", "bn=empty string", "bn=NUL inside"],
                         _ => &[],
                     };
                     // the position mutated inside a point string is drawn at random: fix it by retrying
                     for want in wanted {
+                        let wild = want.ends_with('*');
                         for (l, nv, hp) in leaf_candidates(kind, v, &w.consts, &mut rng) {
-                            if l == *want {
+                            if l == *want || (wild && l.starts_with(&want[..want.len() - 1])) {
                                 out.push(Plan::Doc { base: bi, shape: Shape::Json, muts: vec![Mutn { path: p.clone(), op: Op::Set(nv), kind: l, hang_prone: hp }] });
-                                break;
+                                if !wild { break; }
                             }
                         }
                     }
